@@ -402,8 +402,12 @@ func genGlobalWorld(r *lib.Rng) (map[string]string, int) {
 			a = append(a, fmt.Sprintf("total = total + gv%d", g))
 		}
 	}
+	// the first lines of b.lua use the globals at the very line and column at which a.lua defines them
+	sameSpot := r.Chance(1, 2)
 	for g := 0; g < ng; g++ {
-		if r.Chance(2, 3) {
+		if sameSpot {
+			b = append(b, fmt.Sprintf("gv%d()", g))
+		} else if r.Chance(2, 3) {
 			b = append(b, fmt.Sprintf("print(gv%d)", g))
 		}
 	}
